@@ -14,10 +14,12 @@ import (
 	"io"
 	"os"
 	"path/filepath"
+	"reflect"
 	"strconv"
 	"strings"
 	"testing"
 	"time"
+	"unsafe"
 
 	"github.com/hashicorp/raft"
 	"github.com/rqlite/rqlite/v10/db"
@@ -39,6 +41,23 @@ type c04Env struct {
 	pendIdx uint64
 	pendTerm uint64
 	loadDuringPersist bool
+	pendSuperseded    bool // a snapshot was installed after the pending one was captured
+}
+
+// c04CatchFatal replaces the sink's "exit the process" function (an unexported field of
+// snapshot.Sink) by one that records the call, so that the run can continue with what the
+// exit amounts to: a restart.
+func c04CatchFatal(sink raft.SnapshotSink, called *bool) {
+	v := reflect.ValueOf(sink)
+	if v.Kind() != reflect.Ptr || v.Elem().Kind() != reflect.Struct {
+		return
+	}
+	f := v.Elem().FieldByName("fatalFn")
+	if !f.IsValid() {
+		return
+	}
+	fn := func(error) { *called = true }
+	reflect.NewAt(f.Type(), unsafe.Pointer(f.UnsafeAddr())).Elem().Set(reflect.ValueOf(fn))
 }
 
 type raftFSMSnapshot interface {
@@ -102,6 +121,44 @@ func (e *c04Env) state() string {
 	}
 	dn, _ := e.s.snapshotStore.DueNext()
 	return fmt.Sprintf("staged=%d snaps=%d due=%s", len(wals), n, dn)
+}
+
+// restartProc stops the node, forces a restore from the snapshot store, starts it again and
+// evaluates the property: it must open and hold exactly what it had applied.
+func (e *c04Env) restartProc() string {
+	s := e.s
+	before := e.fullContent()
+	if err := s.Close(true); err != nil {
+		e.t.Fatalf("close: %v", err)
+	}
+	if err := s.ForceSnapshotRestore(); err != nil {
+		e.t.Fatal(err)
+	}
+	e.hist = append(e.hist, "restart(forced restore)")
+	sig := ""
+	if e.stale {
+		sig = ":staged-wal-survived-base-change"
+	} else if e.loadDuringPersist {
+		sig = ":load-applied-while-snapshot-persisted"
+	}
+	if err := s.Open(); err != nil {
+		e.rep.Fail("restart-from-snapshot-fails"+sig, fmt.Sprintf("history %v: Open: %v", e.hist, err), map[string]interface{}{"history": e.hist})
+		e.dead = true
+		return "corrupt"
+	}
+	if _, err := s.WaitForLeader(15 * time.Second); err != nil {
+		e.t.Fatalf("no leader after restart: %v (history %v)", err, e.hist)
+	}
+	// wait until the FSM has applied the whole replayed log
+	if err := s.raft.Barrier(30 * time.Second).Error(); err != nil {
+		e.t.Fatalf("barrier after restart: %v", err)
+	}
+	after := e.fullContent()
+	if after != before {
+		e.rep.Fail("restored-state-differs"+sig, fmt.Sprintf("history %v: applied rows %q, after restoring the newest snapshot and replaying the log %q", e.hist, before, after),
+			map[string]interface{}{"history": e.hist, "before": before, "after": after})
+	}
+	return "ok"
 }
 
 func (e *c04Env) observe() {
@@ -231,10 +288,24 @@ func (e *c04Env) do(op string, r *vfRng) {
 			if err != nil {
 				e.t.Fatalf("snapend: create sink: %v", err)
 			}
+			fatal := false
+			c04CatchFatal(sink, &fatal)
 			if err := e.pend.Persist(sink); err != nil {
 				sink.Cancel()
 			} else if err := sink.Close(); err == nil {
 				res = "installed"
+			}
+			if fatal {
+				// Sink.Close took its fatal exit: the process ends here and is started again
+				e.pend.Release()
+				e.pend, e.pendSuperseded = nil, false
+				e.hist = append(e.hist, "Persist+Close(ok):process exit (Sink.Close fatal)")
+				if r := e.restartProc(); r == "ok" {
+					e.emit(op, "fatal-exit")
+				} else {
+					e.emit(op, r)
+				}
+				return
 			}
 		case "failbefore":
 			if perr := e.pend.Persist(&mockSnapshotSink{nil, fmt.Errorf("verif: sink write error"), nil}); perr == nil {
@@ -242,7 +313,7 @@ func (e *c04Env) do(op string, r *vfRng) {
 			}
 		}
 		e.pend.Release()
-		e.pend = nil
+		e.pend, e.pendSuperseded = nil, false
 		e.emit(op, res)
 		e.hist = append(e.hist, "Persist+Close("+outcome+"):"+res)
 	case strings.HasPrefix(op, "snap "):
@@ -312,6 +383,17 @@ func (e *c04Env) do(op string, r *vfRng) {
 	case op == "install":
 		// what raft's installSnapshot does on a follower: stream the leader's snapshot into a sink of
 		// the local snapshot store, close it, then hand the stored snapshot to FSM.Restore
+		if e.pend != nil {
+			// raft does not serialize installSnapshot with a local snapshot in flight. The leader's
+			// snapshot is ahead of anything captured locally: take one more log index first.
+			af, err := s.Noop("verif")
+			if err != nil || af.Error() != nil {
+				e.t.Fatalf("noop before install: %v", err)
+			}
+			e.emit("noop", "ok")
+			e.pendSuperseded = true
+			e.hist = append(e.hist, "(local snapshot in flight)")
+		}
 		e.nextID++
 		e.noteBaseChange()
 		p := e.mkLoadFile(e.nextID, true)
@@ -358,40 +440,10 @@ func (e *c04Env) do(op string, r *vfRng) {
 	case op == "restart":
 		if e.pend != nil {
 			e.pend.Release()
-			e.pend = nil
+			e.pend, e.pendSuperseded = nil, false
 		}
-		before := e.fullContent()
-		if err := s.Close(true); err != nil {
-			e.t.Fatalf("close: %v", err)
-		}
-		if err := s.ForceSnapshotRestore(); err != nil {
-			e.t.Fatal(err)
-		}
-		e.hist = append(e.hist, "restart(forced restore)")
-		sig := ""
-		if e.stale {
-			sig = ":staged-wal-survived-base-change"
-		} else if e.loadDuringPersist {
-			sig = ":load-applied-while-snapshot-persisted"
-		}
-		if err := s.Open(); err != nil {
-			e.emit("restart", "corrupt")
-			e.rep.Fail("restart-from-snapshot-fails"+sig, fmt.Sprintf("history %v: Open: %v", e.hist, err), map[string]interface{}{"history": e.hist})
-			e.dead = true
-			return
-		}
-		if _, err := s.WaitForLeader(15 * time.Second); err != nil {
-			e.t.Fatalf("no leader after restart: %v (history %v)", err, e.hist)
-		}
-		// wait until the FSM has applied the whole replayed log
-		if err := s.raft.Barrier(30 * time.Second).Error(); err != nil {
-			e.t.Fatalf("barrier after restart: %v", err)
-		}
-		e.emit("restart", "ok")
-		after := e.fullContent()
-		if after != before {
-			e.rep.Fail("restored-state-differs"+sig, fmt.Sprintf("history %v: applied rows %q, after restoring the newest snapshot and replaying the log %q", e.hist, before, after),
-				map[string]interface{}{"history": e.hist, "before": before, "after": after})
+		if r := e.restartProc(); r != "" {
+			e.emit("restart", r)
 		}
 	default:
 		e.t.Fatalf("unknown op %s", op)
@@ -430,8 +482,8 @@ func TestVerifC04(t *testing.T) {
 			if e.dead {
 				break
 			}
-			if e.pend != nil && (op == "boot" || op == "install" || op == "snapbegin" || strings.HasPrefix(op, "snap ")) {
-				continue // raft takes one snapshot at a time; boot/install are not mixed with one in flight here
+			if e.pend != nil && (op == "boot" || op == "snapbegin" || strings.HasPrefix(op, "snap ")) {
+				continue // raft takes one snapshot at a time (a boot goes through the same goroutine)
 			}
 			if e.pend == nil && strings.HasPrefix(op, "snapend ") {
 				continue
@@ -479,6 +531,11 @@ func TestVerifC04(t *testing.T) {
 	// then a full snapshot that is not persisted; then an ordinary snapshot
 	run([]string{"write", "snapbegin", "load", "snapend ok", "bigwrite", "snapbegin", "snapend notinvoked", "bigwrite", "snap ok", "restart"})
 	run([]string{"write", "snap ok", "bigwrite", "snapbegin", "load", "snapend ok", "bigwrite", "snap ok", "bigwrite", "snap ok", "restart"})
+	// a snapshot from the leader installed while a local snapshot is in flight: an incremental
+	// (its Close then takes the sink's fatal exit: restart), a full one, and ones that are not persisted
+	run([]string{"write", "snap ok", "bigwrite", "snapbegin", "install", "snapend ok", "write", "snap ok", "restart"})
+	run([]string{"write", "snapbegin", "install", "snapend ok", "bigwrite", "snap ok", "restart", "write", "snap ok", "restart"})
+	run([]string{"write", "snap ok", "bigwrite", "snapbegin", "install", "snapend failbefore", "bigwrite", "snap ok", "write", "snap ok", "restart"})
 	nSeq := vfScale(5, 120)
 	for i := 0; i < nSeq; i++ {
 		n := vfScale(8, 12) + r.Intn(vfScale(9, 29))
@@ -496,7 +553,7 @@ func TestVerifC04(t *testing.T) {
 			case c < 11:
 				ops = append(ops, "bigwrite", "snap notinvoked")
 			case c < 12:
-				ops = append(ops, "bigwrite", "snapbegin", []string{"write", "load", "bigwrite", "noop"}[r.Intn(4)], "snapend "+[]string{"ok", "ok", "notinvoked", "failbefore"}[r.Intn(4)])
+				ops = append(ops, "bigwrite", "snapbegin", []string{"write", "load", "bigwrite", "noop", "install"}[r.Intn(5)], "snapend "+[]string{"ok", "ok", "notinvoked", "failbefore"}[r.Intn(4)])
 			case c < 13:
 				ops = append(ops, "write", "snap failbefore")
 			case c < 14:
